@@ -137,6 +137,27 @@ class Fold:
             if h is None:
                 raise Uncertified("string model unbound in fold")
             return h(m, *[self.ev(a) for a in x[2]])
+        if m in ('bsearch_by_hit', 'bsearch_by_pos'):
+            t = self.pdb.table(x[2][0][1])
+            cmpd = x[2][1]
+            lo, hi = 0, len(t)
+            hit = None
+            while lo < hi:
+                mid = (lo + hi) // 2
+                env2 = dict(self.env)
+                env2['$elem'] = t[mid]
+                o = Fold(self.pdb, env2).ev(cmpd)
+                nm = self.pdb.variant_name(o[1][1], o[1][2])
+                if nm == 'Less':
+                    lo = mid + 1
+                elif nm == 'Greater':
+                    hi = mid
+                else:
+                    hit = mid
+                    break
+            if m == 'bsearch_by_hit':
+                return C(1 if hit is not None else 0, 'bool')
+            return C(hit if hit is not None else lo, 'usize')
         if m == 'partition_point':
             t = self.pdb.table(x[2][0][1])
             pred = x[2][1]
@@ -383,7 +404,221 @@ def domain_size(ty):
     return 1 << INT_BITS[ty]
 
 
+class IntervalEval:
+    """Abstract evaluation of a DAG for one atom ranging over [lo, hi]: a result is
+    ('k', concrete node) | ('lin', off) meaning atom+off | ('iv', a, b) an integer range | None (unknown)."""
+
+    def __init__(self, pdb, atom_name, ty, lo, hi, env=None):
+        self.pdb, self.an, self.ty, self.lo, self.hi = pdb, atom_name, ty, lo, hi
+        self.env = env or {}
+        self.memo = {}
+        self.single = None
+        if lo == hi:
+            e = dict(self.env)
+            e[atom_name] = lo
+            self.single = Fold(pdb, e)
+
+    def rng(self, r):
+        if r is None:
+            return None
+        if r[0] == 'k':
+            v = r[1]
+            if v[0] == 'c' and isinstance(v[1], int):
+                return (v[1], v[1])
+            return None
+        if r[0] == 'lin':
+            return (self.lo + r[1], self.hi + r[1])
+        if r[0] == 'iv':
+            return (r[1], r[2])
+        return None
+
+    def ev(self, x):
+        if self.single is not None:
+            return ('k', self.single.ev(x))
+        r = self.memo.get(id(x), 0)
+        if r == 0:
+            r = self._ev(x)
+            self.memo[id(x)] = r
+        return r
+
+    def _ev(self, x):
+        k = x[0]
+        if k == 'c':
+            return ('k', x)
+        if k == 'atom':
+            if x[1] == self.an:
+                return ('lin', 0)
+            if x[1] in self.env:
+                v = self.env[x[1]]
+                return ('k', v if isinstance(v, tuple) else C(v, x[2]))
+            return None
+        if k == 'ite':
+            c = self.ev(x[1])
+            if c is not None and c[0] == 'k':
+                return self.ev(x[2]) if c[1][1] else self.ev(x[3])
+            a, b = self.ev(x[2]), self.ev(x[3])
+            if a is not None and a == b:
+                return a
+            if a is not None and b is not None and a[0] == 'k' and b[0] == 'k' and a[1] is b[1]:
+                return a
+            return None
+        if k == 'agg':
+            fs = [self.ev(f) for f in x[2]]
+            if all(f is not None and f[0] == 'k' for f in fs):
+                return ('k', mk('agg', x[1], tuple(f[1] for f in fs)))
+            return None
+        if k == 'bin':
+            op = x[1]
+            a, b = self.ev(x[2]), self.ev(x[3])
+            if x[4] == 'bool' and op in ('BitAnd', 'BitOr') and ty_of(x[2]) == 'bool':
+                va = a[1][1] if (a is not None and a[0] == 'k') else None
+                vb = b[1][1] if (b is not None and b[0] == 'k') else None
+                if op == 'BitAnd':
+                    if va == 0 or vb == 0:
+                        return ('k', FALSE)
+                    if va == 1 and vb == 1:
+                        return ('k', TRUE)
+                else:
+                    if va == 1 or vb == 1:
+                        return ('k', TRUE)
+                    if va == 0 and vb == 0:
+                        return ('k', FALSE)
+                return None
+            if a is None or b is None:
+                return None
+            if a[0] == 'k' and b[0] == 'k' and a[1][0] == 'c' and b[1][0] == 'c':
+                opty = a[1][2]
+                try:
+                    return ('k', C(conc_bin(op, a[1][1], b[1][1], opty, x[4]), x[4]))
+                except Uncertified:
+                    return None
+            ra, rb = self.rng(a), self.rng(b)
+            if ra is None or rb is None:
+                return None
+            if op in CMP:
+                (al, ah), (bl, bh) = ra, rb
+                if op == 'Lt':
+                    return ('k', TRUE) if ah < bl else (('k', FALSE) if al >= bh else None)
+                if op == 'Le':
+                    return ('k', TRUE) if ah <= bl else (('k', FALSE) if al > bh else None)
+                if op == 'Gt':
+                    return ('k', TRUE) if al > bh else (('k', FALSE) if ah <= bl else None)
+                if op == 'Ge':
+                    return ('k', TRUE) if al >= bh else (('k', FALSE) if ah < bl else None)
+                if op == 'Eq':
+                    if ah < bl or al > bh:
+                        return ('k', FALSE)
+                    return ('k', TRUE) if (al == ah == bl == bh) else None
+                if op == 'Ne':
+                    if ah < bl or al > bh:
+                        return ('k', TRUE)
+                    return ('k', FALSE) if (al == ah == bl == bh) else None
+            ty = x[4]
+            bits = INT_BITS.get(ty)
+            if bits is None:
+                return None
+            tlo, thi = (-(1 << (bits - 1)), (1 << (bits - 1)) - 1) if is_signed(ty) else (0, (1 << bits) - 1)
+            if ty == 'char':
+                thi = 0x10FFFF
+            if op in ('Add', 'Sub') and b[0] == 'k' and a[0] in ('lin',):
+                d = b[1][1] if op == 'Add' else -b[1][1]
+                nlo, nhi = self.lo + a[1] + d, self.hi + a[1] + d
+                if tlo <= nlo and nhi <= thi:
+                    return ('lin', a[1] + d)
+                return None
+            if op == 'Add' and a[0] == 'k' and b[0] == 'lin':
+                d = a[1][1]
+                if tlo <= self.lo + b[1] + d and self.hi + b[1] + d <= thi:
+                    return ('lin', b[1] + d)
+                return None
+            if op in ('Add', 'Sub'):
+                nlo = ra[0] + rb[0] if op == 'Add' else ra[0] - rb[1]
+                nhi = ra[1] + rb[1] if op == 'Add' else ra[1] - rb[0]
+                if tlo <= nlo and nhi <= thi:
+                    return ('iv', nlo, nhi)
+            return None
+        if k == 'un':
+            a = self.ev(x[2])
+            if a is not None and a[0] == 'k' and a[1][0] == 'c':
+                if x[1] == 'Not' and x[3] == 'bool':
+                    return ('k', C(0 if a[1][1] else 1, 'bool'))
+            return None
+        if k == 'cast':
+            a = self.ev(x[1])
+            if a is None:
+                return None
+            to = x[2]
+            bits = INT_BITS.get(to)
+            if bits is None:
+                return None
+            if a[0] == 'k' and a[1][0] == 'c':
+                return ('k', C(conc_cast(a[1][1], a[1][2], to), to))
+            r = self.rng(a)
+            tlo, thi = (-(1 << (bits - 1)), (1 << (bits - 1)) - 1) if is_signed(to) else (0, (1 << bits) - 1)
+            if r is not None and tlo <= r[0] and r[1] <= thi:
+                return a
+            return None
+        if k == 'ref' and x[1][0] == 'val':
+            a = self.ev(x[1][1])
+            if a is not None and a[0] == 'k':
+                return ('k', mk('ref', ('val', a[1]), x[2]))
+            return None
+        return None
+
+
+def partition_table(pdb, node, atom_name, ty, env=None, budget=300000):
+    """Partition the whole domain of the atom into intervals on which the function is provably constant or the
+    identity (abstract interval evaluation with adaptive bisection).  -> list of ((lo, hi), value, identity?)."""
+    if ty == 'char':
+        dlo, dhi = 0, 0x10FFFF
+    else:
+        bits = INT_BITS[ty]
+        dlo, dhi = (-(1 << (bits - 1)), (1 << (bits - 1)) - 1) if is_signed(ty) else (0, (1 << bits) - 1)
+    out = []
+    work = [(dlo, dhi)]
+    if ty == 'char':
+        work = [(0, 0xD7FF), (0xE000, 0x10FFFF)]
+    steps = 0
+    while work:
+        lo, hi = work.pop()
+        steps += 1
+        if steps > budget:
+            raise CellsRefused("interval partition exceeds its budget (%d pieces)" % budget)
+        r = IntervalEval(pdb, atom_name, ty, lo, hi, env).ev(node)
+        if r is not None and r[0] == 'k':
+            out.append(((lo, hi), r[1], False))
+            continue
+        if r is not None and r[0] == 'lin' and r[1] == 0:
+            out.append(((lo, hi), C(lo, ty), lo != hi))
+            continue
+        if lo == hi:
+            raise CellsRefused("function not evaluable at %s" % lo)
+        mid = (lo + hi) // 2
+        work.append((mid + 1, hi))
+        work.append((lo, mid))
+    out.sort(key=lambda t: t[0][0])
+    # coalesce neighbours with the same constant value
+    merged = []
+    for cell in out:
+        if merged and not merged[-1][2] and not cell[2] and merged[-1][1] is cell[1] and merged[-1][0][1] + 1 == cell[0][0]:
+            merged[-1] = ((merged[-1][0][0], cell[0][1]), cell[1], False)
+        elif merged and merged[-1][2] and cell[2] and merged[-1][0][1] + 1 == cell[0][0]:
+            merged[-1] = ((merged[-1][0][0], cell[0][1]), merged[-1][1], True)
+        else:
+            merged.append(cell)
+    return merged
+
+
 def cell_table(pdb, node, atom_name, ty, env=None):
+    """Comparison-table analysis; falls back to interval partitioning when the atom is not used in comparisons only."""
+    try:
+        return cell_table_cmp(pdb, node, atom_name, ty, env)
+    except CellsRefused:
+        cells = partition_table(pdb, node, atom_name, ty, env)
+        return cells, len(cells)
+
+
+def cell_table_cmp(pdb, node, atom_name, ty, env=None):
     """-> (list of (cell, value at representative, identity?: bool), n_consts).
     `identity` is True when the function returns the input itself on that cell (checked on both ends)."""
     consts, target = cell_constants(node, atom_name)
@@ -560,6 +795,29 @@ class BitVec:
                         r = b_top(a + b) or 0
                         return [r if op == 'Ne' else r]
                 return [r if op == 'Ne' else b_not(r)]
+            if op in ('Gt', 'Lt', 'Ge', 'Le') and not is_signed(ty_of(x[2]) or 'u32'):
+                # unsigned comparisons with 0 / 1 are zero tests
+                l, r = x[2], x[3]
+                zt = None
+                if op == 'Gt' and r[0] == 'c' and r[1] == 0:
+                    zt = ('ne', l)
+                elif op == 'Lt' and l[0] == 'c' and l[1] == 0:
+                    zt = ('ne', r)
+                elif op == 'Ge' and r[0] == 'c' and r[1] == 1:
+                    zt = ('ne', l)
+                elif op == 'Le' and l[0] == 'c' and l[1] == 1:
+                    zt = ('ne', r)
+                elif op == 'Lt' and r[0] == 'c' and r[1] == 1:
+                    zt = ('eq', l)
+                elif op == 'Le' and r[0] == 'c' and r[1] == 0:
+                    zt = ('eq', l)
+                elif op == 'Ge' and l[0] == 'c' and l[1] == 0:
+                    zt = ('eq', r)
+                elif op == 'Gt' and l[0] == 'c' and l[1] == 1:
+                    zt = ('eq', r)
+                if zt is not None:
+                    bits = b_or(self.bv(zt[1]))
+                    return [bits if zt[0] == 'ne' else b_not(bits)]
             # arithmetic and ordering: unknown function of the operand bits
             a, b = self.bv(x[2]), self.bv(x[3])
             w = self.width(ty) or 1
